@@ -22,6 +22,9 @@ def run(tier):
     run_contracts(pr, libs, tier)
     # (2) the operator arms
     run_contracts_sel(pr, [EVALUATE_EXPRESSION], tier, 'C12')
+    # the row count of dataTop is used in range(): top_data never fails for a valid count in either spelling (bounded run, k=2)
+    from contracts.data_c import TOP_DATA
+    run_contracts_sel(pr, [TOP_DATA], tier, 'C12')
     # (3) the specifications themselves do not look at the spelling
     repo = Repo()
     ip = Interp(Ctx(Engine(repo, Config()), []))
